@@ -73,8 +73,41 @@ fn strategy(conflicts: bool) -> impl Strategy<Value = Case> {
 fn check(case: &Case, obs: &mut Obs) -> PropResult {
 	let qa: Mappings<2, (S, A)> = to_quill(&case.a, case.order).map_err(|e| format!("harness: {e:#}"))?;
 	let qb: Mappings<2, (S, B)> = to_quill(&case.b, case.order.rotate_left(9)).map_err(|e| format!("harness: {e:#}"))?;
-	let expected = refops::merge(&case.a, &case.b);
+	let mut qa = qa;
+	let mut qb = qb;
+	// the comment of the set itself (the plain model has no slot for it): neither / one side / both equal / both different,
+	// chosen from the order seed
+	let top = |sel: u64| match sel % 3 {
+		0 => None,
+		1 => Some(quill::tree::mappings::JavadocMapping("about this set".to_string())),
+		_ => Some(quill::tree::mappings::JavadocMapping("another\ncomment".to_string())),
+	};
+	let (ta, tb) = (top(case.order >> 3), top(case.order >> 7));
+	qa.javadoc = ta.clone();
+	qb.javadoc = tb.clone();
+	let top_conflict = matches!((&ta, &tb), (Some(x), Some(y)) if x != y);
+	let top_expected = ta.clone().or(tb.clone());
+	let mut expected = refops::merge(&case.a, &case.b);
+	if top_conflict && expected.is_ok() {
+		expected = Err("the two sets carry different comments".to_string());
+	}
+	obs.label(match (&ta, &tb) {
+		(None, None) => "set_comment:neither",
+		(Some(_), None) | (None, Some(_)) => "set_comment:one_side",
+		(Some(x), Some(y)) if x == y => "set_comment:both_equal",
+		_ => "set_comment:both_different",
+	});
 	let got = Mappings::<2, (S, A, B)>::merge(&qa, &qb);
+	if let Ok(r) = &got {
+		if expected.is_ok() && r.javadoc != top_expected {
+			return Err(format!("the comment of the merged set is {:?}, expected {:?} (left {:?}, right {:?})", r.javadoc, top_expected, ta, tb));
+		}
+	}
+	// the plain model has no slot for the set's comment: checked above, dropped for the comparison below
+	let got = got.map(|mut r| {
+		r.javadoc = None;
+		r
+	});
 	match (&expected, got) {
 		(Err(why), Ok(r)) => {
 			let r = from_quill(&r).map(|m| format!("{m:?}")).unwrap_or_else(|e| format!("<inconsistent: {e:#}>"));
